@@ -214,6 +214,13 @@ def run_optimization(case, R):
     if u[6] < 0.3 and prognames:
         mspecs.append({"type": "min", "name": prognames[0], "t": [adj_year], "pops": None})
     use_constraint = u[7] < 0.6
+    flat = int(u[6] * 1e4) % 4 == 0
+    if flat:
+        # an objective that spending cannot move (a compartment at the first time point): the optimizer accepts no step, and
+        # what it returns is its starting point - the caller's allocation with the constraints applied - not something else
+        mspecs = [{"type": mtype, "name": comps[0], "t": [start], "pops": None}]
+        use_constraint = True
+        R.count("problems_with_an_objective_that_spending_cannot_move")
     # a hard target that the starting point meets
     base_res = P.run_sim(parset, progset=pset, progset_instructions=instr)
     if u[6] > 0.6:
@@ -290,6 +297,8 @@ def run_optimization(case, R):
 
     # the total to be kept is the caller's total times an optional budget factor
     bf = [1.0, 1.0, 1.5, 0.7][int(u[7] * 1e4) % 4] if use_constraint else 1.0
+    if flat:
+        bf = [1.5, 0.7][int(u[7] * 1e4) % 2]
 
     def make_opt():
         return OP.Optimization(adjustments=sc.dcp(adjustments), measurables=make_measurables(), constraints=[OP.TotalSpendConstraint(budget_factor=bf)] if use_constraint else None, maxiters=case["maxiters"], maxtime=60)
@@ -382,7 +391,7 @@ def run_optimization(case, R):
             # bounds on the adjusted spending
             for ay in adj_years:
                 for pn, lt, lo, hi in adj_specs:
-                    v = float(out_instr.alloc[pn].get(ay))
+                    v = float(pset.get_alloc(ay, out_instr)[pn][0])  # (the spending in force in that year under the returned instructions)
                     x0v = float(pset.get_alloc(ay, instr)[pn][0])  # the caller's spending in that year
                     lo_, hi_ = (lo, hi) if lt == "abs" else (x0v * lo, x0v * hi)
                     if v < lo_ - 1e-6 * max(1, abs(lo_)) or v > hi_ + 1e-6 * max(1, abs(hi_)):
@@ -390,7 +399,7 @@ def run_optimization(case, R):
                     else:
                         R.ok("adjusted-values-within-bounds")
                     # the optimizer starts from the caller's allocation (it lies within these bounds by construction)
-                    vs = float(i_start.alloc[pn].get(ay))
+                    vs = float(pset.get_alloc(ay, i_start)[pn][0])
                     if bf == 1.0:
                         if abs(vs - x0v) > 1e-6 * max(1.0, abs(x0v)):
                             R.bad("start=callers-instructions", "C15:optimizer-starts-from-another-allocation[%s]" % ("multi-year" if multi else "single-year"), {"program": pn, "year": ay, "callers": x0v, "optimizer_start": vs})
@@ -398,7 +407,7 @@ def run_optimization(case, R):
                             R.ok("start=callers-instructions")
                 if use_constraint:
                     tot0 = sum(float(pset.get_alloc(ay, instr)[pn][0]) for pn, *_ in adj_specs)  # the caller's total in that year
-                    tot1 = sum(float(out_instr.alloc[pn].get(ay)) for pn, *_ in adj_specs)
+                    tot1 = sum(float(pset.get_alloc(ay, out_instr)[pn][0]) for pn, *_ in adj_specs)
                     if abs(tot0 * bf - tot1) > 1e-6 * max(1.0, abs(tot0 * bf)):
                         R.bad("total-spend-kept", "C15:total-spend-changed", {"year": ay, "callers_total": tot0, "budget_factor": bf, "end": tot1})
                     else:
